@@ -41,7 +41,7 @@ import NeoModel.Proofs.LedgerWhitelist
 import NeoModel.Proofs.LedgerProduct
 import NeoModel.Proofs.LedgerProductG
 import NeoModel.Proofs.LedgerMgmt
-import NeoModel.Model.Ledger.Reward
+import NeoModel.Proofs.LedgerReward
 import NeoModel.Generated.MapRanges
 import NeoModel.Generated.CacheWrites
 import NeoModel.Generated.CacheRestore
@@ -371,6 +371,23 @@ theorem gasPerVote_records_cache_independent (ops : List GpvOp) (g₁ g₂ : Gpv
     (h1 : GpvCoherent g₁) (h2 : GpvCoherent g₂) (hs : g₁.store = g₂.store) :
     (gpvRun g₁ ops).store = (gpvRun g₂ ops).store ∧ GpvCoherent (gpvRun g₁ ops) ∧ GpvCoherent (gpvRun g₂ ops) :=
   ⟨gpvRun_store_same ops g₁ g₂ h1 h2 hs, gpvRun_coherent ops g₁ h1, gpvRun_coherent ops g₂ h2⟩
+
+/-- (C01, the CONSUMERS of the reward records) Over any block — transfers, votes, blockAccount / destroy revoking votes,
+    recoverFund, candidate drops, the PostPersist accumulation — the stored reward-per-vote records AND the reward fields
+    BalanceHeight / LastGasPerVote of every NEO account record (what claimable GAS is computed from) come out the same
+    on two nodes that differ only in their (coherent) gasPerVoteCache, e.g. one of them restarted at any earlier point;
+    the caches stay coherent; a restart keeps the relation. -/
+theorem reward_fields_cache_independent (cfg : Natives.Cfg) (st : Natives.Storage) (c : Natives.Caches) (h : Nat) (txs : List Natives.Tx)
+    (gas : Int) (s₁ s₂ : Reward.RState) (hs : Reward.RSim s₁ s₂) :
+    Reward.RSim (Reward.rewardsOfBlock cfg st c h txs gas s₁) (Reward.rewardsOfBlock cfg st c h txs gas s₂) ∧
+    Reward.RSim s₁ { s₂ with gpv := gpvStep s₂.gpv .restart } :=
+  ⟨Reward.rewardsOfBlock_sim cfg st c h txs gas hs, Reward.restart_sim hs⟩
+
+-- non-vacuity: block 1 of the witness history (a transfer of 30M NEO from the genesis holder to K2's account): both
+-- records get BalanceHeight 1; and the relation holds between a state and itself
+example : (Reward.rewardsOfBlock Natives.wCfg (Natives.genesisStorage Natives.wCfg Natives.wHolder) (Natives.genesisCaches Natives.wCfg Natives.wHolder) 1
+    [Natives.wTx [Natives.wHolder] (.neoTransfer Natives.wHolder (.key 2) 30000000)] 500000000
+    { gpv := { store := [], cache := [] }, acc := [(Natives.wHolder, (0, 0))] }).acc = [(Natives.wHolder, (1, 0)), (.key 2, (1, 0))] := by decide
 
 -- non-vacuity: committee [K1 (30M votes), K0 (10M)], one validator, 5 GAS per block: the first block of an epoch adds
 -- 2·R/30M to K1's record and R/10M to K0's (R = voterReward); a replica restarted in between stores the same
